@@ -846,14 +846,20 @@ impl EncryptedKeyStorageManager {
                 .truncate(true)
                 .open(&temp_path)
                 .map_err(P2PError::Io)?;
+            #[cfg(feature = "verif-hooks")]
+            crate::verif_hooks::crash_point("keystore.tmp_created");
 
             file.write_all(&serialized_storage).map_err(P2PError::Io)?;
 
             file.flush().map_err(P2PError::Io)?;
         }
+        #[cfg(feature = "verif-hooks")]
+        crate::verif_hooks::crash_point("keystore.before_rename");
 
         // Atomic rename
         std::fs::rename(&temp_path, &self.storage_path).map_err(P2PError::Io)?;
+        #[cfg(feature = "verif-hooks")]
+        crate::verif_hooks::crash_point("keystore.after_rename");
 
         Ok(())
     }
